@@ -267,6 +267,8 @@ def oracle_c15(cfgl, lines):
         name, kv, r, nw, ew, wl = parse(l)
         if r in ("PANIC", "HANG"):
             return (n, f"{name}: {r}")
+        if name == "dropcache":
+            name = "close"            # the last handle is dropped without close(): the cache closes itself
         if name == "wait":
             owed = set()
         if name == "memevict" and not closed and not woi:
